@@ -33,7 +33,7 @@ COMPS = ("obj", "grad", "cons", "jac", "hess")
 
 
 def generate(rng, seed, index, tier):
-    fam = str(rng.choice(["qp", "nlp", "degenerate", "domain"], p=[0.4, 0.4, 0.1, 0.1]))
+    fam = str(rng.choice(["qp", "nlp", "degenerate", "domain", "saddle"], p=[0.35, 0.35, 0.1, 0.1, 0.1]))
     spec, x0, y0 = gen.gen_problem(rng, fam)
     kw = gen.gen_params(rng, spec, x0, y0, p_knob=0.55, reporting=False, globalized=False)
     if rng.random() < 0.15:
